@@ -44,6 +44,7 @@ type linScn struct {
 	Store  bool     // with the bundled peer store
 	Tokens bool     // afterwards every token handed out is used by its recipient
 	Cfg    string   // tblCfgs name ("" = plain)
+	Heavy  bool     // thorough tier only
 }
 
 type linObs struct {
@@ -282,7 +283,7 @@ func (e *linEnv) observe() (o linObs) {
 
 // linAllowed runs every order of the events sequentially (twice: the eviction victim among equals
 // is the runtime's choice) and collects the observations.
-func linAllowed(t *testing.T, scn *linScn) (allowed map[string]bool, viol string) {
+func linAllowed(t *testing.T, scn *linScn, checkInv bool) (allowed map[string]bool, viol string) {
 	allowed = map[string]bool{}
 	for rep := 0; rep < 2; rep++ {
 		for _, perm := range permutations(len(scn.Events)) {
@@ -302,8 +303,12 @@ func linAllowed(t *testing.T, scn *linScn) (allowed map[string]bool, viol string
 					synctest.Wait()
 				}
 				o := e.observe()
-				if o.Inv != "" {
-					viol = "HARNESS: sequential order violates the table invariant: " + o.Inv
+				if o.Inv != "" && checkInv {
+					var order []string
+					for _, i := range perm {
+						order = append(order, scn.Events[i])
+					}
+					viol = o.Inv + " (after the events " + strings.Join(order, " ; ") + ", one at a time)"
 				}
 				allowed[o.String()] = true
 			})
@@ -318,7 +323,7 @@ func linAllowed(t *testing.T, scn *linScn) (allowed map[string]bool, viol string
 	return
 }
 
-func runLin(t *testing.T, scn *linScn, allowed map[string]bool, prefix []int) (x explore.Exec) {
+func runLin(t *testing.T, scn *linScn, allowed map[string]bool, checkInv bool, prefix []int) (x explore.Exec) {
 	var c *e2Ctl
 	var viol, outcome string
 	pan := Bubble(t, func() {
@@ -381,7 +386,7 @@ func runLin(t *testing.T, scn *linScn, allowed map[string]bool, prefix []int) (x
 		y.Conn.BeforeWrite = nil
 		verifsched.Install(nil)
 		o := e.observe()
-		if o.Inv != "" {
+		if o.Inv != "" && checkInv {
 			viol = o.Inv + " (after the concurrent events " + strings.Join(scn.Events, " ") + ")"
 			return
 		}
@@ -419,6 +424,9 @@ var linScenarios = map[string][]linScn{
 		{Name: "same-node-two-forms", Start: "empty", Events: []string{"Q:n1", "Q:n1m"}},
 		{Name: "full-bucket-two-newcomers", Start: "full8nevr", Pend: []string{"n1"}, Events: []string{"R:n1", "Q:n2"}},
 		{Name: "add-add-stats", Start: "full8good", Events: []string{"A:n1", "A:n2", "S"}},
+		{Name: "three-new-nodes", Heavy: true, Start: "empty", Events: []string{"Q:n1", "Q:n2", "Q:c1"}},
+		{Name: "same-node-add-add-query", Heavy: true, Start: "empty", Events: []string{"A:n1", "A:n1m", "Q:n1"}},
+		{Name: "full-bucket-reply-add-query", Heavy: true, Start: "full8nevr", Pend: []string{"n1"}, Events: []string{"R:n1", "A:n2", "Q:c1"}},
 	},
 	"C06": {
 		{Name: "reply-vs-query-same-node", Start: "empty", Pend: []string{"n1"}, Events: []string{"R:n1", "Q:n1"}},
@@ -429,6 +437,8 @@ var linScenarios = map[string][]linScn{
 		// both have returned are judged by the new list
 		{Name: "filter-vs-blocklist", Start: "empty", Events: []string{"F:n1", "B:n1"}, Post: []string{"Q:n1", "Q:n2"}},
 		{Name: "filter-vs-blocklist-replaced", Cfg: "block", Start: "empty", Events: []string{"F:n1", "B:n1"}, Post: []string{"Q:n1", "Q:n2"}},
+		{Name: "reply-query-blocklist", Heavy: true, Start: "empty", Pend: []string{"n1"}, Events: []string{"R:n1", "Q:n2", "B:n2"}, Post: []string{"Q:n2"}},
+		{Name: "two-filters-blocklist", Heavy: true, Cfg: "block", Start: "empty", Events: []string{"F:n1", "F:n2", "B:n1"}, Post: []string{"Q:n1", "Q:n2"}},
 	},
 	"C10": {
 		{Name: "two-token-issues", Start: "empty", Store: true, Tokens: true, Events: []string{"V:A:probe", "V:B:v6"}},
@@ -440,10 +450,12 @@ var linScenarios = map[string][]linScn{
 		// two askers, targets in different buckets, contacts in both buckets: each reply carries the
 		// list selected for its own target
 		{Name: "two-targets", Start: "full8good", Pre: []string{"A:c1"}, Pend: []string{"c1"}, Events: []string{"R:c1", "G:n1:0", "G:n2:1"}},
+		{Name: "three-askers", Heavy: true, Start: "full8good", Pre: []string{"A:c1"}, Pend: []string{"c1"}, Events: []string{"G:n1:0", "G:n2:1", "G:c1:5"}},
 	},
 	"C11": {
 		{Name: "two-infohashes", Start: "empty", Store: true, Pre: []string{"N:n1:7001:A", "N:n2:7002:A", "N:v6:7003:B"}, Events: []string{"V:A:probe", "V:B:v6"}},
 		{Name: "announce-vs-get", Start: "empty", Store: true, Pre: []string{"N:n1:7001:A"}, Events: []string{"N:n2:7002:A", "V:A:probe", "V:B:probe"}},
+		{Name: "three-getters", Heavy: true, Start: "empty", Store: true, Pre: []string{"N:n1:7001:A", "N:n2:7002:B", "N:v6:7003:B"}, Events: []string{"V:A:probe", "V:B:v6", "V:B:v4"}},
 	},
 }
 
@@ -461,20 +473,20 @@ func linTier(prop string) func(t *testing.T, w *explore.Worker, idx *int) {
 			}
 			i := *idx
 			*idx++
-			if !w.Mine(i) {
+			if !w.Mine(i) || (scn.Heavy && !w.Thorough()) {
 				continue
 			}
 			unit := "lin;scn=" + scn.Name
 			w.BeginUnit(i, unit)
-			allowed, v := linAllowed(t, &scn)
+			allowed, v := linAllowed(t, &scn, prop == "C05")
 			if v != "" {
-				w.Violate(explore.Case{Prop: prop, Unit: unit}, v)
+				w.Violate(explore.Case{Prop: prop, Unit: unit, H: []string{"sequential"}}, v)
 				continue
 			}
 			d := &explore.DFS{W: w, Unit: unit, Preempt: pb, Observe: 0, DetCheck: 2, Prune: true, MaxViol: 5,
-				Run: func(prefix []int) explore.Exec { return runLin(t, &scn, allowed, prefix) }}
+				Run: func(prefix []int) explore.Exec { return runLin(t, &scn, allowed, prop == "C05", prefix) }}
 			if w.Thorough() {
-				d.Deadline = time.Now().Add(w.Remaining() / 4)
+				d.Deadline = time.Now().Add(w.Remaining() / 6)
 			}
 			d.Explore()
 			w.AddStates(d.States)
@@ -490,12 +502,12 @@ func linReplay(prop string) func(t *testing.T, c explore.Case) explore.Result {
 		for _, scn := range linScenarios[prop] {
 			if scn.Name == name {
 				scn := scn
-				allowed, v := linAllowed(t, &scn)
-				if v != "" {
+				allowed, v := linAllowed(t, &scn, prop == "C05")
+				if v != "" || (len(c.H) == 1 && c.H[0] == "sequential") {
 					return explore.Result{Viol: v}
 				}
 				ch, _ := explore.HToChoices(c.H)
-				x := runLin(t, &scn, allowed, ch)
+				x := runLin(t, &scn, allowed, prop == "C05", ch)
 				if x.Err != "" {
 					return explore.Result{Viol: "HARNESS: " + x.Err}
 				}
